@@ -397,7 +397,22 @@ func (c *compiler) createListEquals(listType *ddpIrListType, declarationOnly boo
 
 	// compare single elements
 	// primitive types can easily be compared
-	if listType.elementType.IsPrimitive() {
+	if listType.elementType == c.ddpfloattyp {
+		// Kommazahlen are equal as numbers (0,0 and -0,0 are, a value that is not a number equals nothing), not as bytes
+		c.createFor(zero, c.forDefaultCond(list1_len),
+			func(index value.Value) {
+				list1_arr, list2_arr := c.loadStructField(list1, list_arr_field_index), c.loadStructField(list2, list_arr_field_index)
+				elem1 := c.cbb.NewLoad(ddpfloat, c.indexArray(list1_arr, index))
+				elem2 := c.cbb.NewLoad(ddpfloat, c.indexArray(list2_arr, index))
+				c.createIfElse(c.cbb.NewFCmp(enum.FPredUNE, elem1, elem2), func() {
+					c.cbb.NewRet(constant.False)
+				},
+					nil,
+				)
+			},
+		)
+		c.cbb.NewRet(constant.True)
+	} else if listType.elementType.IsPrimitive() {
 		// return memcmp(list1->arr, list2->arr, sizeof(T) * list1->len) == 0;
 		size := c.cbb.NewMul(c.sizeof(listType.elementType.IrType()), list1_len)
 		memcmp := c.memcmp(c.loadStructField(list1, list_arr_field_index), c.loadStructField(list2, list_arr_field_index), size)
